@@ -20,6 +20,8 @@ Token level
 * `parse_print`       printing any expressible list (all 13 node kinds, nested, runs of
                       characters merged per font) and parsing the tokens back gives the list
 * `parse_print_each`  the same for the per-element printer (`Display for ds::Horizontal`)
+* `parse_print_normalize`, `normalize_id`  what printing forgets (`normList`), and that it
+                      forgets nothing on expressible lists
 * `parse_print_cst`   parsing a pretty-printed CST gives the CST back, with any continuation
 * `format_idempotent`, `format_preserves_meaning`
 -/
@@ -191,7 +193,10 @@ theorem parse_print (H : ScaledRoundTrip) (m : Mode) (l : List Node) (he : exprL
     parseToks m (printNodes m l) = some l := by
   unfold parseToks printNodes
   rw [parseSource_printCalls]
-  exact build_lower H m l he
+  have h := repr_list_of_expr m l he
+  have := build_lower H m l h.1
+  rw [h.2] at this
+  exact this
 
 /-- The same for the printer that boxworks-testing uses (one `Display` per element, no merging
 of character runs across elements). -/
@@ -199,7 +204,29 @@ theorem parse_print_each (H : ScaledRoundTrip) (l : List Node) (he : exprList .H
     parseToks .H (printCalls (lowerEach l)) = some l := by
   unfold parseToks
   rw [parseSource_printCalls]
-  exact build_each H l _ (by omega) he
+  have h := repr_list_of_expr .H l he
+  have := build_each H l _ (Nat.lt_succ_self _) h.1
+  rw [h.2] at this
+  exact this
+
+/-- What exactly printing forgets. At the token level the round trip holds for every
+well-moded list whose counters fit their types (`reprList`: no bound on dimensions, any kern
+kind, glue kind, mark, vbox glue set) and gives `normList l`: kinds reset to normal, marks
+emptied, the glue set of vboxes dropped, everything else — recursively — unchanged. -/
+theorem parse_print_normalize (H : ScaledRoundTrip) (m : Mode) (l : List Node)
+    (he : reprList m l = true) : parseToks m (printNodes m l) = some (normList l) := by
+  unfold parseToks printNodes
+  rw [parseSource_printCalls]
+  exact build_lower H m l he
+
+/-- On the lists the language can express nothing is forgotten. -/
+theorem normalize_id (m : Mode) (l : List Node) (he : exprList m l = true) : normList l = l :=
+  (repr_list_of_expr m l he).2
+
+example : reprList .H [.kern 3 (2 ^ 31), .mark 5, .vbox 0 0 0 0 true [.glue 2 0 0 .normal 0 .normal]] = true := by
+  decide
+example : normList [.kern 3 (2 ^ 31), .mark 5, .vbox 0 0 0 0 true [.glue 2 0 0 .normal 0 .normal]] =
+    [.kern 0 (2 ^ 31), .mark 0, .vbox 0 0 0 0 false [.glue 0 0 0 .normal 0 .normal]] := by rfl
 
 /-- A non-trivial list meeting the hypothesis: merged character runs in two fonts (one above
 `i32::MAX`), infinite glue, a running rule, a ligature, a discretionary, nested boxes, an
